@@ -168,7 +168,7 @@ Plan gen_plan(const std::string &prop, uint64_t seed, int64_t run) {
         p.knobs["hooks"] = 0;
         int epochs = (int)r.range(2, 4);
         auto mix = swarm(cat({CREATE, EDIT, {{"parse", 6}, {"print", 6}, {"dup", 3}, {"delete", 3}, {"sort", 2}, {"ptr_find", 3}, {"patch_gen", 3}, {"merge_gen", 2}, {"merge_apply", 2}, {"pop", 4}, {"patch_apply", 2}, {"add_ref_arr", 1}, {"add_obj_cs", 1}, {"compare", 1}, {"utils_ci", 3},
-                              {"add_ref_obj", 1}, {"new_strref", 1}, {"new_arrref", 1}, {"new_objref", 1}, {"add_obj_alias", 1}, {"replace_key_alias", 1}, {"minify", 1}}}), r);
+                              {"add_ref_obj", 1}, {"new_strref", 1}, {"new_arrref", 1}, {"new_objref", 1}, {"add_obj_alias", 1}, {"replace_key_alias", 1}, {"minify", 1}, {"pcorrupt", 2}}}), r);
         if (r.chance(1, 3)) { p.knobs["faults"] = 1; mix.push_back({"arm", 10}); mix.push_back({"print", 8}); mix.push_back({"parse", 4}); mix.push_back({"set_valuestring", 6}); mix.push_back({"new_string", 3}); }
         for (int e = 0; e < epochs; e++) {
             p.steps.push_back(make_step("hooks", r));
